@@ -29,6 +29,14 @@ DECIDED by this check (exact integer-lattice restriction, specs/C16 + specs/lib/
     a WITNESS placement whose exact mean squared deviation TLC knows: the fit must not be worse
     than the witness by more than (8 + fitted atoms) float32 ulps of the coordinate magnitude
     (an exact rigid copy fits to zero within that rounding allowance);
+  * forms of the selection: the atom selection is a set of positions handed over as a boolean
+    ndarray / list of bools / integer index array (int64, int32, descending view) / list of ints -
+    also selections without the first atom; expected values do not depend on the form;
+  * constructor dtypes: the rotation array of a hand-built AffineTransformation has its own dtype
+    (integer rotation with half-tick translations);
+  * large structures (family "big"): 24 ... 10,000 atoms (sizes across 4096 / 8192), run-length
+    encoded blocks of small lattice sets, whole blocks displaced, selections of whole blocks; the
+    placement "g^-1, centroids aligned" is a witness with an exact mean squared deviation;
   * histories on one transformation object: all sequences of as_matrix() / apply() / edits of
     returned arrays / edits of the attributes up to a bounded length - every accessor result is
     a function of the current attributes only.
@@ -156,6 +164,32 @@ def shaped_vals(vals, depth, form):
     return vals.astype(dt)
 
 
+MASK_FORMS = ("bool", "idx64", "blist", "idx32", "idxrev", "ilist")     # RigidFitOps!MaskForms
+INDEX_FORMS = ("idx64", "idx32", "idxrev", "ilist")
+RFORMS = ("i64", "f32", "i32", "f64")                                    # RigidFitOps!RForms
+
+
+def mask_arg(mask, kf):
+    """The selection (spec: a sequence of BOOLEANs = a set of positions) in the FORM the case names
+    (RigidFitOps: forms of the selection): a NumPy index along the atom axis."""
+    np = _np()
+    m = [bool(x) for x in mask]
+    if kf == "bool":
+        return np.array(m, dtype=bool)
+    if kf == "blist":
+        return m
+    idx = [i for i, x in enumerate(m) if x]
+    if kf == "idx64":
+        return np.array(idx, dtype=np.int64)
+    if kf == "idx32":
+        return np.array(idx, dtype=np.int32)
+    if kf == "idxrev":
+        return np.array(idx, dtype=np.int64)[::-1]
+    if kf == "ilist":
+        return idx
+    raise RuntimeError(f"unknown form of the selection: {kf}")
+
+
 def scribble(obj):
     """The caller overwrites an array it got from an accessor, in place."""
     np = _np()
@@ -221,13 +255,15 @@ def do_fit(R, pay, out):
     np = _np()
     import biotite.structure as struc
 
-    P, gi, ti, mask, noise, fd, md, ff, mf, hs = pay
+    P, gi, ti, mask, noise, fd, md, ff, mf, hs, kf = pay
     oc, nT, fdepth, per, F, M, maskidx, rk = out
     fixed = shaped(F, fd, ff, half=hs)
     mobile = shaped(M, md, mf)
     kw = {}
     if mask:
-        kw["atom_mask"] = np.array(mask[0], dtype=bool)
+        kw["atom_mask"] = mask_arg(mask[0], kf)
+        if sorted(np.arange(len(P))[kw["atom_mask"]].tolist()) != list(maskidx):
+            raise RuntimeError(f"the selection {kf} does not denote the specification's set {maskidx}")
     R.calls += 1
     try:
         fitted, tr = struc.superimpose(fixed, mobile, **kw)
@@ -283,8 +319,9 @@ def do_fit(R, pay, out):
 
 
 # --------------------------------------------------------------------------- S2: "affine"
-def _transformation(cs, rots, ts, den, tform, single):
-    """AffineTransformation(cs / den, rots, ts / den) with constructor arrays of dtype tform."""
+def _transformation(cs, rots, ts, den, tform, single, rform=None):
+    """AffineTransformation(cs / den, rots, ts / den): translation arrays of dtype tform, rotation
+    array of dtype rform (a lattice rotation is an integer matrix)."""
     np = _np()
     import biotite.structure as struc
 
@@ -292,18 +329,19 @@ def _transformation(cs, rots, ts, den, tform, single):
     if tform in INT_FORMS and den != 1:
         raise RuntimeError("Dom violated by the case: integer constructor arrays with half ticks")
     c = (np.array(cs[0] if single else cs, dtype=float) / den).astype(dt)
-    rot = np.array(rots[0] if single else rots, dtype=dt)
+    rdt = np.dtype(_DT[rform or tform])
+    rot = np.array(rots[0] if single else rots, dtype=rdt)
     t = (np.array(ts[0] if single else ts, dtype=float) / den).astype(dt)
-    return struc.AffineTransformation(c, rot, t), dt
+    return struc.AffineTransformation(c, rot, t), dt, rdt
 
 
 def do_affine(R, pay, out):
     np = _np()
 
-    cs, gis, ts, X, depth, form, den, tform = pay
+    cs, gis, ts, X, depth, form, den, tform, rform = pay
     oc, res, mats, mods, rots = out
     single = len(cs) == 1 and R.idx % 2 == 0     # documented: shapes (3,) / (3,3) are expanded
-    tr, _dt = _transformation(cs, rots, ts, den, tform, single)
+    tr, _dt, _rdt = _transformation(cs, rots, ts, den, tform, single, rform)
     x = shaped(mods, depth, form)
     R.calls += 2
     try:
@@ -329,9 +367,9 @@ def do_hist(R, pay, out):
     the spec's value for the current attributes."""
     np = _np()
 
-    cs, gis, ts, X, depth, ops, form, den, tform = pay
+    cs, gis, ts, X, depth, ops, form, den, tform, rform = pay
     steps, mods, rots = out
-    tr, dt = _transformation(cs, rots, ts, den, tform, False)
+    tr, dt, rdt = _transformation(cs, rots, ts, den, tform, False, rform)
     x = shaped(mods, depth, form)
     x0 = coords(x)
     last = None
@@ -356,7 +394,7 @@ def do_hist(R, pay, out):
             if last is not None:
                 scribble(last)
         elif op == "setR":       # attribute re-assigned
-            tr.rotation = np.array(st["R"], dtype=dt)
+            tr.rotation = np.array(st["R"], dtype=rdt)
         elif op == "sett":
             tr.target_translation = (np.array(st["t"], dtype=float) / den).astype(dt)
         elif op == "incc":       # attribute edited in place
@@ -399,7 +437,7 @@ def do_far(R, pay, out):
 
     import biotite.structure as struc
 
-    P, C, qs, t, nz, mask, fd, md, ff, mf = pay
+    P, C, qs, t, nz, mask, fd, md, ff, mf, kf = pay
     nT, fdepth, F, off, Ds, wit, maskidx, W, allow, ue = out
     n = len(F)
     M = [[[float(Fr(F[k][i]) + Fr(off[j][k][i], Ds[j]) + Fr(t[i], t[3]) + (Fr(nz[i], nz[3]) if k == 0 else 0))
@@ -408,7 +446,7 @@ def do_far(R, pay, out):
     Mv = np.array(M, dtype=np.float64)
     fixed = shaped_vals(Fv if fd == 0 else Fv[np.newaxis], fd, ff)
     mobile = shaped_vals(Mv[0] if md == 0 else Mv, md, mf)
-    kw = {"atom_mask": np.array(mask[0], dtype=bool)} if mask else {}
+    kw = {"atom_mask": mask_arg(mask[0], kf)} if mask else {}
     R.calls += 1
     fitted, tr = struc.superimpose(fixed, mobile, **kw)
     if tr.rotation.shape[0] != nT:
@@ -449,6 +487,55 @@ def do_far(R, pay, out):
         r = float(np.atleast_1d(struc.rmsd(ref[idx], f3[k][idx]))[0])
         if abs(r - rf) > 1e-4 * rf + 0.5 * ulp:
             R.bad("rmsd", rf, r)
+
+
+# --------------------------------------------------------------------------- S2: "big"
+def do_big(R, pay, out):
+    """Large structures (run-length encoded by the specification): the fit must not be worse than
+    the witness placement 'g^-1, centroids aligned' whose exact mean squared deviation TLC gives."""
+    np = _np()
+    import biotite.structure as struc
+
+    blocks, gi, ti, fd, md, ff, mf, sel, kf = pay
+    nT, fdepth, FB, MB, counts, n, W, selb, nsel = out
+
+    def tile(cycles):
+        return np.concatenate([np.array(cyc, dtype=np.float64)[np.arange(m) % len(cyc)] for cyc, m in zip(cycles, counts)])
+
+    Fv = tile(FB)
+    Mv = np.array([tile(mb) for mb in MB])
+    if Fv.shape != (n, 3) or Mv.shape[1:] != (n, 3):
+        raise RuntimeError(f"expanded structure has shape {Fv.shape}, the specification says {n} atoms")
+    fixed = shaped_vals(Fv if fd == 0 else Fv[np.newaxis], fd, ff)
+    mobile = shaped_vals(Mv[0] if md == 0 else Mv, md, mf)
+    flags = np.repeat(np.array(selb, dtype=bool), counts)         # the selection, run-length encoded like the atoms
+    if int(flags.sum()) != nsel:
+        raise RuntimeError(f"expanded selection has {int(flags.sum())} atoms, the specification says {nsel}")
+    kw = {"atom_mask": mask_arg(flags.tolist(), kf)} if sel else {}
+    R.calls += 1
+    fitted, tr = struc.superimpose(fixed, mobile, **kw)
+    if tr.rotation.shape[0] != nT:
+        R.bad("superimpose", f"{nT} transformations", f"{tr.rotation.shape[0]} transformations", atoms=n)
+        return
+    probs = transform_sanity(tr, mobile, fitted)
+    if probs:
+        R.bad("superimpose", "proper rotation; fitted = apply(mobile) = as_matrix form", probs, atoms=n)
+        return
+    fit = coords(fitted)
+    if fit.shape != ((n, 3) if md == 0 else (md, n, 3)):
+        R.bad("superimpose", [md, n, 3], list(fit.shape), what="fitted shape")
+        return
+    f3 = fit.reshape(-1, n, 3)
+    for k in range(nT):
+        msd = float(np.mean(np.sum((f3[k] - Fv)[flags] ** 2, axis=-1)))
+        if W[0] == 0:
+            if math.sqrt(msd) > 1e-3:
+                R.bad("superimpose", {"rmsd_on_selected_atoms": 0.0, "model": k, "atoms": n, "selected": nsel}, math.sqrt(msd))
+        elif msd > W[0] / W[1] * (1 + 1e-4) + 1e-6:
+            R.bad("superimpose", {"msd_on_selected_atoms<=witness": [W[0], W[1]], "model": k, "atoms": n, "selected": nsel}, msd)
+        r = float(np.atleast_1d(struc.rmsd(Fv[flags], f3[k][flags]))[0])
+        if abs(r * r - msd) > 1e-5 + 1e-4 * msd:
+            R.bad("rmsd", math.sqrt(msd), r, atoms=n)
 
 
 # --------------------------------------------------------------------------- S2: "anch"
@@ -561,7 +648,7 @@ def do_anch(R, pay, out):
     R.events.append(ev)
 
 
-DO = {"fit": do_fit, "affine": do_affine, "hist": do_hist, "anch": do_anch, "far": do_far}
+DO = {"fit": do_fit, "affine": do_affine, "hist": do_hist, "anch": do_anch, "far": do_far, "big": do_big}
 
 
 def exec_group(item):
@@ -682,13 +769,20 @@ def run_far(rng):
 
     from harness.tlabind.pool import progress
 
-    n = rng.randint(3, 24)
+    large = rng.random() < 0.15          # thousands of atoms: sizes across block / counter boundaries
+    n = rng.choice([4095, 4096, 4097, 8191, 8193, rng.randint(4098, 8190), rng.randint(4098, 8190), rng.randint(8194, 13000)]) if large \
+        else rng.randint(3, 24)
     fd, md = rng.choice([(0, 0), (0, 0), (0, 2), (1, 0), (1, 3), (0, 1)])
     ff, mf = rng.choice(FINE_FORMS), rng.choice(FINE_FORMS)
     where = rng.choice(["origin", "near", "far", "far", "far"])
     span = {"origin": 0.0, "near": 60.0, "far": 2000.0}[where]
     C = np.array([rng.choice([-1, 1]) * rng.uniform(0.15 * span, span) for _ in range(3)])
-    P = np.array([[rng.gauss(0, 6) for _ in range(3)] for _ in range(n)])
+    if large:      # a compact core followed by a spread-out last third (numpy generator seeded from rng: deterministic)
+        g = np.random.default_rng(rng.randrange(1 << 30))
+        P = g.normal(0.0, 3.0, size=(n, 3))
+        P[n - n // 3:] *= 3.0
+    else:
+        P = np.array([[rng.gauss(0, 6) for _ in range(3)] for _ in range(n)])
     F = (C + P).astype(np.float32).astype(np.float64)       # the fixed structure as float32 holds it
     mask = []
     if rng.random() < 0.35:
@@ -698,6 +792,8 @@ def run_far(rng):
         mask = [m]
     idx = [i for i in range(n) if not mask or mask[0][i]]
     noise = rng.choice(["none", "none", "none", "tiny", "large"])
+    if large:
+        noise = rng.choice(["none", "domain", "domain"])
     Ms, cws, Rws, tws, qs = [], [], [], [], []
     for _j in range(max(md, 1)):
         a = int(10 ** rng.uniform(0, 5.3))
@@ -717,6 +813,12 @@ def run_far(rng):
             M = M + np.array([[rng.gauss(0, 3e-4) for _ in range(3)] for _ in range(n)])
         elif noise == "large":
             M[rng.randrange(n)] += np.array([rng.choice([-1.0, 1.0]), 0.0, rng.choice([0.0, 0.5])])
+        elif noise == "domain":
+            # two groups of atoms of the first third on opposite sides are displaced in opposite directions
+            # (a torque: the optimum is another rotation; the witness stays a valid candidate placement)
+            first = np.arange(n) < n // 3
+            M[first & (P[:, 0] > 2.0)] += np.array([0.0, 2.0, 0.0])
+            M[first & (P[:, 0] < -2.0)] -= np.array([0.0, 2.0, 0.0])
         Ms.append(M)
         cws.append(-(C + t))
         Rws.append(Rm.T)
@@ -725,10 +827,11 @@ def run_far(rng):
     Mv = np.array(Ms)
     fixed = shaped_vals(F if fd == 0 else F[np.newaxis], fd, ff)
     mobile = shaped_vals(Mv[0] if md == 0 else Mv, md, mf)
+    kf = rng.choice(MASK_FORMS)
     ev = {"op": "far", "fd": fd, "md": md, "nfit": len(idx), "form": [ff, mf], "centre": C.tolist(), "quats": qs,
-          "noise": noise, "n": n, "mask": mask}
+          "noise": noise, "n": n, "mask": mask if n <= 24 else [], "mform": kf if mask else "none", "large": large}
     progress(ev)
-    fitted, tr = struc.superimpose(fixed, mobile, **({"atom_mask": np.array(mask[0])} if mask else {}))
+    fitted, tr = struc.superimpose(fixed, mobile, **({"atom_mask": mask_arg(mask[0], kf)} if mask else {}))
     probs = transform_sanity(tr, mobile, fitted)
     fit = coords(fitted)
     if fit.shape != coords(mobile).shape:
@@ -797,11 +900,12 @@ def gen_trace(item):
                     m[0] = True
                 mask = [m]
             fform = rng.choice(FORMS)
+            kf = rng.choice(MASK_FORMS) if mask else "none"
             fixed, mobile = shaped(F, fd, fform), shaped(M, md, form)
-            progress({"op": "fit", "F": F, "M": M, "fd": fd, "md": md, "mask": mask, "form": [fform, form]})
-            ev = {"op": "fit", "F": F, "M": M, "fd": fd, "md": md, "mask": mask, "form": [fform, form]}
+            progress({"op": "fit", "F": F, "M": M, "fd": fd, "md": md, "mask": mask, "form": [fform, form], "mform": kf})
+            ev = {"op": "fit", "F": F, "M": M, "fd": fd, "md": md, "mask": mask, "form": [fform, form], "mform": kf}
             try:
-                fitted, tr = struc.superimpose(fixed, mobile, **({"atom_mask": np.array(mask[0])} if mask else {}))
+                fitted, tr = struc.superimpose(fixed, mobile, **({"atom_mask": mask_arg(mask[0], kf)} if mask else {}))
             except Exception:
                 ev.update(oc="Rejected", rmsd2q=[], sane=True)
                 events.append(ev)
@@ -895,6 +999,9 @@ def run(ctx):
         "homolog variant: lattice 'proteins' of ALA/GLY/SER residues from the synthetic CCD (/verif/fixtures/ccd), CA atoms on the lattice",
         "Dom_Form: coordinates are handed over as ndarrays (float16/32/64, int32/int64, contiguous or not; also instances of ndarray subclasses: read-only numpy.memmap, a trivial user subclass - masked arrays and numpy.matrix are excluded) or AtomArray / AtomArrayStack - the documented containers; integer forms hold integer coordinates only (half ticks only with floating forms); plain Python lists are not documented inputs and are not exercised",
         "motions off the lattice (family 'far', recorded 'far' events): rotations R = I + QE(q)/|q|^2 from integer quaternions, fixed = centre + small lattice set, rational translations and noise; witness law: RMSD(fitted) <= RMSD(generating motion's inverse) + (8 + fitted atoms) ulps, ulp = float32 spacing at the largest coordinate magnitude (measured on the unchanged code: <= 2.9 ulps in S2, <= 4.5 ulps over 4,000 recorded events); only forms that hold such coordinates (no integer forms, no float16)",
+        "Dom_MaskForm: the selection of the fitted atoms is a non-empty set of positions, handed over as a NumPy index along the atom axis: boolean ndarray (documented), list of bools, integer index array (int64 / int32, ascending or a descending view), list of ints - distinct positions in range; every form denotes the same set of atom pairs",
+        "hand-built AffineTransformation: translation arrays float32 / float64 (int64 only without half ticks), rotation array int64 / int32 / float32 / float64 independently (a lattice rotation is an integer matrix)",
+        "large structures (family 'big'): run-length encoded blocks (small lattice set, scaled, at an offset, repeated cyclically), 24 ... 10,000 atoms (thorough 12,500), mobile = g(fixed + d_b) + t with whole blocks displaced; witness placement 'g^-1, centroids aligned' with exact msd (n*Sum m_b|d_b|^2 - |Sum m_b d_b|^2)/n^2; tolerance as on the lattice (RMSD 1e-3 for exact copies, msd <= W(1+1e-4)+1e-6); all coordinate forms except float16; the driver only expands the run-length encoding; recorded 'far' events with 4,095 ... 13,000 atoms use the witness law with its allowance of (8 + fitted atoms) ulps",
         "histories: operations mat / app / scr (caller edits a returned array in place) / setR, sett (attribute re-assigned) / incc (attribute edited in place), up to 4 (quick) or 5 (thorough) operations",
         "anchor path of superimpose_homologs decided only where the alignment is not needed: no positively scoring residue pair (PosScore = sign of BLOSUM62 on ALA/GLY/SER, bound to the real matrix by the driver) -> fallback, identical sequences -> identity pairing; everything else is 'open' (C08's subject); fewer backbone atoms than min_anchors: 'open' (the code refuses, undocumented)",
         "trusted: TLC, the TLA+ value parser, numpy",
@@ -911,6 +1018,8 @@ def run(ctx):
     mob_forms, fix_forms, half_whole, aff_forms, hist_forms, paths = {}, {}, {}, {}, {}, {}
     hist_shapes = set()
     far_forms, far_mob_forms, far_kinds = {}, {}, {}
+    mask_forms, idx_without_first, rot_dtypes = {}, {}, {}
+    big_kinds = {}
     for c, o in done:
         kinds[c[0]] = kinds.get(c[0], 0) + 1
         if c[0] == "fit":
@@ -918,6 +1027,11 @@ def run(ctx):
             ranks[o[0][7]] = ranks.get(o[0][7], 0) + 1
             ff, mf, hs = c[1][7], c[1][8], c[1][9]
             fix_forms[ff] = fix_forms.get(ff, 0) + 1
+            kf = c[1][10]
+            mask_forms[kf] = mask_forms.get(kf, 0) + 1
+            # a selection without the first atom, the perturbation ON the first atom, an exact fit of the selection
+            if c[1][3] and not c[1][3][0][0] and any(c[1][4]) and o[0][3] and all(w[0] == 0 for w in o[0][3]):
+                idx_without_first[kf] = idx_without_first.get(kf, 0) + 1
             for w in o[0][3]:
                 zero += w[0] == 0
                 pos += w[0] > 0
@@ -930,8 +1044,12 @@ def run(ctx):
             ocs["affine:" + o[0][0]] = ocs.get("affine:" + o[0][0], 0) + 1
             if o[0][0] == "ok":
                 aff_forms[(c[1][5], c[1][6])] = aff_forms.get((c[1][5], c[1][6]), 0) + 1
+            key = f"affine den={c[1][6]} t={c[1][7]} R={c[1][8]}"
+            rot_dtypes[key] = rot_dtypes.get(key, 0) + 1
         elif c[0] == "hist":
             hist_forms[c[1][6]] = hist_forms.get(c[1][6], 0) + 1
+            key = f"hist den={c[1][7]} t={c[1][8]} R={c[1][9]}"
+            rot_dtypes[key] = rot_dtypes.get(key, 0) + 1
             ops = c[1][5]
             # accessor, something in between, the same accessor again: the shapes that need a history
             for i, a in enumerate(ops):
@@ -944,6 +1062,13 @@ def run(ctx):
             far_kinds["exact copy" if o[0][7][0] == 0 else "noise"] = far_kinds.get("exact copy" if o[0][7][0] == 0 else "noise", 0) + 1
             far_kinds[f"depths {c[1][6]},{c[1][7]}"] = far_kinds.get(f"depths {c[1][6]},{c[1][7]}", 0) + 1
             far_kinds["mask" if c[1][5] else "no mask"] = far_kinds.get("mask" if c[1][5] else "no mask", 0) + 1
+            far_kinds["selection " + c[1][10]] = far_kinds.get("selection " + c[1][10], 0) + 1
+        elif c[0] == "big":
+            n = o[0][8]          # fitted atoms
+            big_kinds["selection " + c[1][8]] = big_kinds.get("selection " + c[1][8], 0) + 1
+            cls = ("<4096" if n < 4096 else "=4096" if n == 4096 else "4097..8191" if n < 8192 else ">8192") \
+                + (" exact copy" if o[0][6][0] == 0 else " displaced block")
+            big_kinds[cls] = big_kinds.get(cls, 0) + 1
         else:
             key = c[1][0] + ":" + o[0][0]
             paths[key] = paths.get(key, 0) + 1
@@ -952,11 +1077,13 @@ def run(ctx):
                    mobile_forms_with_exact_fit=mob_forms, fixed_forms=fix_forms,
                    mobile_forms_fitted_onto_half_tick_positions=half_whole,
                    affine_form_den_pairs=len(aff_forms), history_forms=hist_forms, anchor_paths=paths,
-                   far_fixed_forms=far_forms, far_mobile_forms=far_mob_forms, far_kinds=far_kinds)
+                   far_fixed_forms=far_forms, far_mobile_forms=far_mob_forms, far_kinds=far_kinds,
+                   selection_forms=mask_forms, selection_without_first_atom_exact_fit_perturbed_first=idx_without_first,
+                   constructor_dtypes=rot_dtypes, large_structures=big_kinds)
     need = {"ok", "Rejected", "Unspecified", "affine:ok", "affine:Rejected"}
     if not need <= set(ocs) or set(ranks) != {0, 1, 2, 3} or not (zero and pos and whole):
         raise Vacuity(f"families miss an outcome / rank / witness kind: {ocs} {ranks} {zero} {pos} {whole}")
-    if set(kinds) != {"fit", "affine", "hist", "anch", "far"}:
+    if set(kinds) != {"fit", "affine", "hist", "anch", "far", "big"}:
         raise Vacuity(f"a family is empty: {kinds}")
     if not quick or len(done) > 3000:     # (the tiny development config does not hold every combination)
         allf = set(FORMS)
@@ -969,18 +1096,31 @@ def run(ctx):
         if set(far_forms) != set(FINE_FORMS) or set(far_mob_forms) != set(FINE_FORMS) \
                 or not {"exact copy", "noise", "mask", "no mask", "depths 0,0", "depths 0,2", "depths 1,2"} <= set(far_kinds):
             raise Vacuity(f"the family of motions off the lattice misses a form / kind: {far_forms} {far_mob_forms} {far_kinds}")
+        if set(mask_forms) != set(MASK_FORMS) | {"none"} or set(idx_without_first) != set(MASK_FORMS) \
+                or not {"selection " + k for k in MASK_FORMS} <= set(far_kinds):
+            raise Vacuity(f"a form of the selection is not exercised (also: without the first atom): {mask_forms} {idx_without_first} {far_kinds}")
+        wantb = {f"{a} {b}" for a in ("<4096", "=4096", "4097..8191", ">8192") for b in ("exact copy", "displaced block")}
+        if not wantb <= set(big_kinds):
+            raise Vacuity(f"large structures: a size class (of the fitted atoms) is missing: {big_kinds}")
+        if not {"selection " + k for k in MASK_FORMS + ("none",)} <= set(big_kinds):
+            raise Vacuity(f"large structures: a form of the selection is missing: {big_kinds}")
+        wantd = {f"{fam} den=2 t={t} R={r}" for fam in ("affine", "hist") for t in ("f32", "f64") for r in RFORMS} \
+            | {f"{fam} den=1 t=i64 R={r}" for fam in ("affine", "hist") for r in RFORMS}
+        if not wantd <= set(rot_dtypes):
+            raise Vacuity(f"constructor dtype combinations missing: {sorted(wantd - set(rot_dtypes))}")
         wantp = {"homologs:fallback", "homologs:identity", "homologs:Rejected", "homologs:open", "outliers:outliers"}
         if not wantp <= set(paths):
             raise Vacuity(f"anchor paths missing: {paths}")
     ctx.cov["rule"] = ("a fit case is non-trivial when the rigid motion is not the identity or the witness bound is positive; "
                        "an affine case when it has a non-identity rotation; a history when an edit lies between two accessor calls; "
                        "an anchor case when a residue is displaced or the path is not 'open'; "
-                       "a motion off the lattice when its rotation is not the identity")
+                       "a motion off the lattice when its rotation is not the identity; a large structure when a block is displaced")
     ctx.nontrivial += sum(1 for c, o in done if (c[0] == "fit" and (c[1][1] != 1 or any(w[0] > 0 for w in o[0][3])))
                           or (c[0] == "affine" and any(g != 1 for g in c[1][1]))
                           or (c[0] == "hist" and any(x not in ("mat", "app") for x in c[1][5][:-1]) and any(x in ("mat", "app") for x in c[1][5][:-1]))
                           or (c[0] == "anch" and (c[1][6] or o[0][0] != "open"))
-                          or (c[0] == "far" and any(q[1:] != [0, 0, 0] for q in c[1][2])))
+                          or (c[0] == "far" and any(q[1:] != [0, 0, 0] for q in c[1][2]))
+                          or (c[0] == "big" and o[0][6][0] > 0))
     d = tlc.scratch_dir("c16")
     per = 100
     items = []
@@ -1047,6 +1187,7 @@ def run(ctx):
                                                  and len(e["fa"]) < min(len(e["F"]), len(e["M"]))),
                    s3_far_exact_copies=sum(1 for t in s3traces for e in t if e["op"] == "far" and e["sane"] and all(q <= 2 * ULP_UNITS for q in e["qwit"])),
                    s3_far_tiny_relative_motion_above_rounding=sum(1 for t in s3traces for e in t if e["op"] == "far" and e["sane"] and any(e["tiny_motion"])),
+                   s3_far_large=sum(1 for t in s3traces for e in t if e["op"] == "far" and e.get("large")),
                    s3_forms=sorted({f for t in s3traces for e in t if "form" in e for f in ([e["form"]] if isinstance(e["form"], str) else e["form"])}),
                    events_judged_by_trace_spec=nev)
     if not all(ops.values()):
